@@ -81,9 +81,11 @@ class LeanState:
         self.generated_sha = None
         self.generated_changed = False
         self.extract_error = None
+        self.extra_ok, self.extra_log = True, ''
+        self.gen_translated, self.gen_untranslated, self.gen_changed = [], [], False
 
 
-def lake_build(state):
+def lake_build(state, extra_targets=()):
     """regenerate Generated.lean from /repo, then `lake build` under a lock"""
     sys.path.insert(0, HERE)
     import extract
@@ -102,6 +104,19 @@ def lake_build(state):
             pr = subprocess.run(['lake', 'build'], cwd=LEAN, capture_output=True, text=True, timeout=3000)
             state.build_log = (pr.stdout + pr.stderr)[-6000:]
             state.build_ok = pr.returncode == 0 and os.path.exists(DRV)
+            # extra targets of this property only (e.g. `Gen`: the rule bodies translated from /repo and their
+            # equivalence with the model): a failure there concerns this property's obligations, not the whole build
+            state.extra_ok, state.extra_log = True, ''
+            if state.build_ok and extra_targets:
+                try:
+                    import pytolean
+                    state.gen_changed, state.gen_translated, state.gen_untranslated = pytolean.regenerate(REPO, LEAN)
+                except Exception as e:          # pragma: no cover - regenerate() does not raise
+                    state.gen_translated, state.gen_untranslated = [], [('*', '*', repr(e))]
+                pr2 = subprocess.run(['lake', 'build'] + list(extra_targets), cwd=LEAN, capture_output=True, text=True,
+                                     timeout=3000)
+                state.extra_ok = pr2.returncode == 0
+                state.extra_log = (pr2.stdout + pr2.stderr)[-4000:]
         finally:
             fcntl.flock(lk, fcntl.LOCK_UN)
     state.build_s = time.time() - t0
@@ -294,7 +309,12 @@ def write_evidence(pid, tier, seed, state, theorems, outcome, wall, violations, 
         'exhaustive': bool(outcome.exhaustive),
         'lean': {'build_ok': state.build_ok, 'build_s': round(state.build_s, 2), 'audit_s': round(state.audit_s, 2),
                  'axioms': {t: state.axioms.get(t) for t in theorems},
-                 'leanchecker': getattr(state, 'leanchecker', None)},
+                 'leanchecker': getattr(state, 'leanchecker', None),
+                 'translated_from_source': {
+                     'extra_targets_ok': state.extra_ok,
+                     'rule_bodies': ['%s.%s' % (m, c) for m, c, _ in state.gen_translated],
+                     'outside_the_fragment': ['%s.%s (%s)' % (m, c, r[:40]) for m, c, r in state.gen_untranslated]}
+                 if (state.gen_translated or state.gen_untranslated) else None},
         'repo_head': repo_head(),
         'generated_lean_sha': state.generated_sha,
     }
